@@ -187,7 +187,7 @@ impl<'a> Eval<'a> {
                 }
                 acc
             }
-            Tm::Scratch(_, b) => self.tm(b, ctx)?,
+            Tm::Scratch(_, b) | Tm::Keep(_, b) => self.tm(b, ctx)?,
             Tm::ScopedVar(c) => md(ctx.lhs.last().copied().unwrap_or(0) + c),
             Tm::Shared(d) => {
                 let s = ctx.shared[*d].clone().expect("verif: missing shared term");
@@ -292,7 +292,7 @@ impl<'a, 'b> Cone<'a, 'b> {
                     self.visit_tm(t, ctx);
                 }
             }
-            Tm::Scratch(_, b) => self.visit_tm(b, ctx),
+            Tm::Scratch(_, b) | Tm::Keep(_, b) => self.visit_tm(b, ctx),
             Tm::Shared(d) => {
                 if let Some(s) = ctx.shared[*d].clone() {
                     self.visit_tm(&s, &trunc(ctx, *d));
